@@ -62,6 +62,14 @@ class _EulerBernoulli(_GroupElem):
             F_e_pg = np.abs(F_e_pg)
         return F_e_pg
 
+    def _Get_x_direction_e_pg(self) -> np.ndarray:
+        """+1 / -1 (Ne, nPg, 1): whether the member runs toward +x or -x.
+
+        A 1D structure has no member frame: its unknown is the displacement along the global x-axis,
+        so the axial strain is du/dx = (+-1) du/ds with s the abscissa along the member."""
+        F_e_pg = _GroupElem.Get_F_e_pg(self, MatrixType.beam)
+        return np.sign(np.asarray(F_e_pg)[:, :, 0, 0])[:, :, np.newaxis]
+
     # Beams shapes functions
     # Use hermitian shape functions
 
@@ -449,7 +457,9 @@ class _EulerBernoulli(_GroupElem):
             idx_ux = np.arange(dof_n * nPe)
 
             B_e_pg = np.zeros((Ne, nPg, 1, dof_n * nPe), dtype=float)
-            B_e_pg[:, :, 0, idx_ux] = dN_e_pg[:, :, 0]
+            B_e_pg[:, :, 0, idx_ux] = self._Get_x_direction_e_pg() * np.asarray(
+                dN_e_pg[:, :, 0]
+            )
 
         elif dim == 2:
             # u = [u1, v1, rz1, . . . , un, vn, rzn]
@@ -673,7 +683,9 @@ class _Timoshenko(_EulerBernoulli):
         if dim == 1:
             idx_ux = idx[:, 0]
             B_e_pg = np.zeros((Ne, nPg, 1, dof_n * nPe), dtype=float)
-            B_e_pg[:, :, 0, idx_ux] = dN_e_pg[:, :, 0]
+            B_e_pg[:, :, 0, idx_ux] = self._Get_x_direction_e_pg() * np.asarray(
+                dN_e_pg[:, :, 0]
+            )
 
         elif dim == 2:
             # u = [u, v, rz] per node
